@@ -483,7 +483,7 @@ Section EnumTheorem.
     inv_bind_as Hc as vcs Hvcs. inversion Hc; subst c; clear Hc.
     set (name := tname_ident (dt_name ta) (d_name d)) in *.
     set (c := {| dc_enum_name := name; dc_variants := vcs |}) in *.
-    destruct v as [| | | | | |vn xs| | | |]; try discriminate Hv.
+    destruct v as [| | | | | |vn xs| | | | |]; try discriminate Hv.
     cbn [dbg_value_ok] in Hv. change (dc_variants c) with vcs in Hv.
     destruct (find (variant_is vn) vcs) as [vc|] eqn:Ef; [|discriminate Hv].
     destruct vn as [va|]; [|rewrite (find_struct_in_enum vs vcs Hvcs) in Ef; discriminate Ef].
